@@ -148,37 +148,71 @@ def replay_state(chk, rec, n):
 
 
 def cli_bytes(chk):
-    """End to end: resvg -> pngquant -> zopflipng -> CBDT / sbix; embedded bytes = final PNG in the build dir."""
+    """End to end: resvg -> pngquant -> zopflipng -> CBDT / sbix through the real driver (flags -> resolved TOML ->
+    write_font): embedded bytes = final PNG in the build dir, and strike size / placement follow the resolution the
+    bitmaps were really rendered at."""
+    import struct
+
     from fontTools.ttLib import TTFont
 
     files = {"src/emoji_u1f600.svg": cli.SVG_A, "src/emoji_u1f601.svg": cli.SVG_B}
+    upem, asc, desc = 1024, 950, -250   # the defaults the CLI builds below run with
+    em = asc - desc
+    jobs = [("cbdt", [], 64), ("sbix", ["--nouse_zopflipng"], 64), ("cbdt", ["--nouse_pngquant"], 160)]
+    if chk.tier != "quick":
+        jobs += [("cbdt", [], 32), ("sbix", [], 96), ("cbdt", [], 200), ("sbix", ["--nouse_pngquant"], 160)]
     with common.scratch("c14-") as work:
-        for fmt, flags in (("cbdt", []), ("sbix", ["--nouse_zopflipng"])):
-            sb = cli.Sandbox(work / fmt)
+        for n, (fmt, flags, res) in enumerate(jobs):
+            sb = cli.Sandbox(work / f"{fmt}-{n}")
             for p, t in files.items():
                 sb.write(p, t)
-            rc, out = sb.run(["--color_format", fmt, "--keep_glyph_names", "--bitmap_resolution", "64"] + flags + sorted(files))
-            chk.case(key=("cli", fmt), nontrivial=True)
+            rc, out = sb.run(["--color_format", fmt, "--keep_glyph_names", "--bitmap_resolution", str(res)] + flags + sorted(files))
+            chk.case(key=("cli", fmt, res, tuple(flags)), nontrivial=True)
+            chk.traces_validated += 1
+            replay = {"kind": "cli", "format": fmt, "flags": flags, "bitmap_resolution": res}
             if rc != 0:
-                chk.violation(f"CLI {fmt} build fails", {"log": out[-500:]})
+                chk.violation(f"CLI {fmt} build fails", dict(replay, log=out[-500:]))
                 continue
             f = TTFont(str(sb.build / "Font.ttf"), lazy=False)
-            d = "zopflipng" if not flags else "pngquant"
+            d = "pngquant" if "--nouse_zopflipng" in flags else ("bitmap" if "--nouse_pngquant" in flags and "--nouse_zopflipng" in flags else "zopflipng")
             want = {p.stem: p.read_bytes() for p in (sb.build / d).glob("*.png")}
-            got = {}
+            got, metrics = {}, {}
             if fmt == "cbdt":
-                for sd in f["CBDT"].strikeData:
+                for st, sd in zip(f["CBLC"].strikes, f["CBDT"].strikeData):
                     for gn, rec in sd.items():
                         got[gn] = bytes(rec.imageData)
+                        metrics[gn] = (st.bitmapSizeTable.ppemX, rec.metrics)
             else:
-                for st in f["sbix"].strikes.values():
+                for ppem, st in f["sbix"].strikes.items():
                     for gn, gl in st.glyphs.items():
                         if gl.imageData:
                             got[gn] = bytes(gl.imageData)
+                            metrics[gn] = (ppem, gl)
             pairs = {"g_1f600": "emoji_u1f600", "g_1f601": "emoji_u1f601"}
             for gn, stem in pairs.items():
                 if got.get(gn) != want.get(stem):
-                    chk.violation(f"CLI {fmt}: image stored for {gn} is not build/{d}/{stem}.png", {"format": fmt})
+                    chk.violation(f"CLI {fmt}: image stored for {gn} is not build/{d}/{stem}.png", replay)
+                    continue
+                w, h = struct.unpack(">II", got[gn][16:24])
+                if h != res:
+                    chk.violation(f"CLI {fmt}: --bitmap_resolution {res} but the bitmap of {gn} is {h} px high", replay)
+                ppem_want = round(upem * h / em)
+                ppem, m = metrics[gn]
+                sc = ppem_want / upem
+                if ppem != ppem_want:
+                    chk.violation(f"CLI {fmt}: strike ppem {ppem}, round(upem * bitmap height / em height) = {ppem_want}", replay)
+                    continue
+                adv = f["hmtx"][gn][0]
+                if fmt == "cbdt":
+                    tol = 2 if m.BearingY in (-128, 127) else 1
+                    if abs(m.BearingY - asc * sc) > tol + 1e-9 or abs((m.BearingY - h) - desc * sc) > tol + 1 + 1e-9:
+                        chk.violation(f"CLI cbdt ({res} px): vertical box [{m.BearingY - h}, {m.BearingY}] of {gn} vs the scaled em box "
+                                      f"[{desc * sc:.2f}, {asc * sc:.2f}]", replay)
+                    if abs(m.Advance - adv * sc) > 1.5:
+                        chk.violation(f"CLI cbdt ({res} px): pixel advance {m.Advance} vs scaled font advance {adv * sc:.2f}", replay)
+                else:
+                    if abs(m.originOffsetY - desc * sc) > 1 + 1e-9:
+                        chk.violation(f"CLI sbix ({res} px): originOffsetY {m.originOffsetY} vs scaled descender {desc * sc:.2f}", replay)
 
 
 def run(chk):
